@@ -4,13 +4,16 @@
 //! and out-of-range ids and oversized lengths: outcomes are results, errors or clean panics, and the
 //! instrumented platform never sees an unshare / dealloc that does not match a live share / allocation.
 use crate::hal::{self, Ev, LedgerHal};
+#[cfg(feature = "alloc")]
 use crate::scen::c19::ODev;
 use crate::scen::common::*;
 use crate::scen::qrig::*;
 use crate::tport::{ModelTransport, TState};
 use crate::Ctx;
 use std::panic::{catch_unwind, AssertUnwindSafe};
+#[cfg(feature = "alloc")]
 use virtio_drivers::device::input::VirtIOInput;
+#[cfg(feature = "alloc")]
 use virtio_drivers::queue::{OwningQueue, VirtQueue};
 use virtio_drivers::transport::DeviceType;
 
@@ -76,6 +79,7 @@ fn adversarial<const N: usize>(ctx: &mut Ctx, flags: u8, start: u16, nops: usize
 }
 
 /// OwningQueue against a device that repeats ids, uses ids it was never given and reports oversized lengths
+#[cfg(feature = "alloc")]
 fn owning_adversarial<const N: usize, const B: usize>(ctx: &mut Ctx, flags: u8, nops: usize) {
     hal::reset();
     BUFIDS.with(|b| b.borrow_mut().clear());
@@ -124,6 +128,7 @@ fn owning_adversarial<const N: usize, const B: usize>(ctx: &mut Ctx, flags: u8, 
 
 /// every id of the event queue as the FIRST completion a fresh driver sees (all 32 buffers must really be with the device:
 /// an id whose buffer was never posted would be unshared without having been shared), then ids just outside
+#[cfg(feature = "alloc")]
 fn input_id_sweep(ctx: &mut Ctx, features: u64) {
     for id in (0u32..36).chain([0xffffu32, 0x1001f]) {
         hal::reset();
@@ -147,6 +152,7 @@ fn input_id_sweep(ctx: &mut Ctx, features: u64) {
     }
 }
 
+#[cfg(feature = "alloc")]
 fn input_adversarial(ctx: &mut Ctx, features: u64, nops: usize) {
     hal::reset();
     virtio_drivers::verif::set_observer(None);
@@ -188,6 +194,9 @@ pub fn run(ctx: &mut Ctx) {
             if !scrib { ctx.rng = saved; }
         }
     }
+    // OwningQueue and VirtIOInput exist only with the cargo feature `alloc`
+    #[cfg(feature = "alloc")]
+    {
     let n = ctx.budget(300, 20) as usize;
     for flags in 0..4u8 {
         ctx.tr.scenario(&format!("c07-owning-adversarial-n4-f{}", flags)); owning_adversarial::<4, 16>(ctx, flags, n);
@@ -198,5 +207,6 @@ pub fn run(ctx: &mut Ctx) {
         ctx.tr.scenario(&format!("c07-input-id-sweep-{}", i)); input_id_sweep(ctx, *feats);
         // the same driver in lock-step with Model/Input.v (lines 1960..1962) and under monitors 1970 / 1971
         ctx.tr.scenario(&format!("c07-input-wild-{}", i)); crate::scen::c19::input_wild(ctx, *feats, n);
+    }
     }
 }
